@@ -15,7 +15,7 @@ Deliberately permissive (see also vp/refmodel/lookup.py):
   accepted (exact mode everywhere, +-1 for the blanks at the ends of sorted data);
 * "~" not followed by ? or * in a text lookup value: literal tilde or escape of the next character;
 * a blank result cell may be delivered as None or 0;
-* out-of-range index: #REF! or #VALUE!; with a missing lookup value also #N/A;
+* out-of-range index: #REF! or #VALUE! (also with a missing lookup value: the index is judged first);
 * a fractional index (2.5) may be truncated or refused with #REF!/#VALUE! - only an exception or
   a cell other than the truncated one is reported;
 * INDEX with row/column 0 or omitted: the whole row/column (any nesting), for vectors also the
@@ -51,7 +51,7 @@ BUDGET = {'quick': 12, 'thorough': 240}
 # (>= 2x below a run on a machine with load average 80 on 16 cores)
 FLOORS = {
     'quick': {'mini:match-approx': 12824, 'mini:match-exact': 21756, 'mini:index-sweep': 3690,
-              'directed:wildcard': 1680, 'fn:match': 70000, 'match:mt=1': 6412, 'match:mt=-1': 6412,
+              'directed:wildcard': 1680, 'directed:folding': 30, 'fn:match': 70000, 'match:mt=1': 6412, 'match:mt=-1': 6412,
               'match:mt=0': 22596, 'scenarios': 500,
               'fn:vlookup': 20000, 'fn:hlookup': 20000, 'fn:lookup': 500, 'fn:index': 2000,
               'via-workbook': 1000, 'firm': 60000,
@@ -62,7 +62,7 @@ FLOORS = {
               'wild:pattern': 1200, 'idx:too-large': 5000, 'idx:zero': 2500, 'idx:negative': 2500,
               'idx:in-range': 10000},
     'thorough': {'mini:match-approx': 12824, 'mini:match-exact': 21756, 'mini:index-sweep': 3690,
-                 'directed:wildcard': 1680, 'fn:match': 400000, 'fn:vlookup': 300000, 'fn:hlookup': 300000,
+                 'directed:wildcard': 1680, 'directed:folding': 30, 'fn:match': 400000, 'fn:vlookup': 300000, 'fn:hlookup': 300000,
                  'fn:lookup': 10000, 'fn:index': 30000, 'via-workbook': 15000, 'firm': 1000000,
                  'law:vlookup=index(match)': 150000, 'law:hlookup=index(match)': 150000,
                  'law:vlookup=hlookup(transpose)': 300000, 'law:lookup=index(match)': 8000,
@@ -781,6 +781,30 @@ def directed_wildcards(ctx):
             ctx.count('directed:wildcard')
 
 
+# texts that differ in more than their case although a "full" case folding (str.casefold) makes them equal: sharp s
+# and ss, the ligature fi and f + i, long s and s, kelvin sign and k are different texts for an exact match
+FOLDING_VECTORS = [
+    ['Straße', 'STRASSE', 'strasse'], ['masse', 'maße', 'MASSE'], ['ﬁn', 'fin', 'FIN'], ['ſa', 'sa', 'SA'],
+    ['STRASSE', 'straße'], ['FIN', 'ﬁn'], ['ǆ', 'ǅ', 'Ǆ', 'dž'], ['ς', 'σ', 'Σ'],
+]
+
+
+def directed_folding(ctx):
+    i = 0
+    for vec in FOLDING_VECTORS:
+        for v in sorted({x for k in vec for x in (k, k.upper(), k.lower())}):
+            if len(v.lower()) != len(v) or v.lower().upper().lower() != v.lower():
+                continue     # (upper() of a sharp s is SS: a different text, looked up as such below, not as "its" upper case)
+            i += 1
+            if not ctx.mine(i):
+                continue
+            check_case(ctx, {'kind': 'match', 'v': v, 'a': vec, 'mt': 0, 'wb': i % 5 == 0, 'inline': i % 2 == 0})
+            ctx.count('directed:folding')
+            t = [[k, f'r{r}'] for r, k in enumerate(vec, 1)]
+            check_case(ctx, {'kind': 'vh', 'v': v, 't': t, 'idx': 2, 'rl': False, 'wb': i % 7 == 0})
+            ctx.count('directed:folding')
+
+
 # ----------------------------------------------------------------------------- seeded scenarios
 
 WB_RATE = 0.02
@@ -905,6 +929,7 @@ def run(ctx):
     mini_space(ctx)
     index_sweep(ctx)
     directed_wildcards(ctx)
+    directed_folding(ctx)
     rng = ctx.rng
     while not ctx.out_of_time():
         x = rng.random()
